@@ -87,12 +87,13 @@ void runRoute(const Scn &scn, Out &out)
     QList<QObject *> owned;
     THandler *root = nullptr;
     QByteArray raw;
-    bool noroot = false, late = false, unsetlate = false, soft = false, warming = false;
+    bool noroot = false, late = false, unsetlate = false, soft = false, warming = false, prebuf = false;
     foreach (const QString &t, scn.toks) {
         if (t == "soft") soft = true;
         else if (t == "noroot") noroot = true;
         else if (t == "late") late = true;
         else if (t == "unsetlate") unsetlate = true;
+        else if (t == "prebuf") prebuf = true;
     }
     Server *server = new Server;
     ServerPrivate *sp = server->findChild<ServerPrivate *>();
@@ -156,13 +157,22 @@ void runRoute(const Scn &scn, Out &out)
     if (root && !noroot && !late) server->setHandler(root);
     QPointer<SimTcp> tcp = new SimTcp;
     tcp->log = obs;
-    *obs << "e:0";
-    sp->process(tcp);
-    if (late && root && !noroot) server->setHandler(root);
-    if (unsetlate) server->setHandler(nullptr);
-    *obs << "e:1";
-    if (tcp) tcp->feed(stream);
+    if (prebuf) {
+        // the whole request is in the transport's buffer when the server takes the connection
+        *obs << "e:0";
+        tcp->put(stream);
+        *obs << "e:1";
+        sp->process(tcp);
+    } else {
+        *obs << "e:0";
+        sp->process(tcp);
+        if (late && root && !noroot) server->setHandler(root);
+        if (unsetlate) server->setHandler(nullptr);
+        *obs << "e:1";
+        if (tcp) tcp->feed(stream);
+    }
     *obs << "e:2";
+    eventTurn();
     eventTurn();
     out.obs << "end";
     if (tcp) tcp->log = nullptr;
